@@ -16,7 +16,13 @@ pub struct MatchState<'a> {
     pub level: usize,
     capture: [(usize, isize); MAXCAPTURES],
     depth: u32,
+    /// total number of `do_match` invocations (runaway backtracking guard)
+    work: u64,
 }
+
+/// Marker error: the matcher used more than `WORK_LIMIT` steps.
+pub const BUDGET_ERR: &str = "\u{0}pattern matching budget exceeded";
+const WORK_LIMIT: u64 = 50_000_000;
 
 type MResult<T> = Result<T, String>;
 
@@ -44,7 +50,7 @@ fn match_class(c: u8, cl: u8) -> bool {
 
 impl<'a> MatchState<'a> {
     pub fn new(src: &'a [u8], pat: &'a [u8]) -> MatchState<'a> {
-        MatchState { src, pat, level: 0, capture: [(0, 0); MAXCAPTURES], depth: MAXCCALLS }
+        MatchState { src, pat, level: 0, capture: [(0, 0); MAXCAPTURES], depth: MAXCCALLS, work: 0 }
     }
 
     pub fn reprep(&mut self) {
@@ -232,6 +238,10 @@ impl<'a> MatchState<'a> {
     pub fn do_match(&mut self, mut s: usize, mut p: usize) -> MResult<Option<usize>> {
         if self.depth == 0 {
             return Err("pattern too complex".into());
+        }
+        self.work += 1;
+        if self.work > WORK_LIMIT {
+            return Err(BUDGET_ERR.into());
         }
         self.depth -= 1;
         let res = loop {
